@@ -44,6 +44,10 @@ if not os.path.exists(Z3NEW):
 
 def _model_query(text, names):
     """text ending in (check-sat) -> text asking for the input symbols"""
+    # only symbols the query declares can be asked for (an input that the
+    # obligation does not mention is arbitrary: the replay uses a default)
+    names = [n for n in names if re.search(
+        r'\(declare-(fun|const) \|?%s\|? ' % re.escape(n), text)]
     if not names:
         return text
     return text + '\n(get-value (%s))\n' % ' '.join(
